@@ -537,11 +537,11 @@ def scan (first : α → Bool) (better : α → α → Bool) (m : Store α) : Re
 def scanMax [ExtCmp α] (m : Store α) : Res (Scan α) := scan ExtCmp.gtNegInf (fun x c => gtb x c) m
 def scanMin [ExtCmp α] (m : Store α) : Res (Scan α) := scan ExtCmp.ltPosInf (fun x c => ltb x c) m
 
-/-- `transpose` (`MatrixTools.h:838-848`) -/
+/-- `transpose` (`MatrixTools.h:841-851`) -/
 def transpose (A O : Store α) : Res (Store α) :=
   fill (O.resize A.ncols A.nrows) A.ncols A.nrows fun i j => A.get j i
 
-/-- `isSymmetric` (`MatrixTools.h:855-869`) -/
+/-- `isSymmetric` (`MatrixTools.h:858-872`) -/
 def isSymmetric (A : Store α) : Res Bool :=
   if A.ncols ≠ A.nrows then .ok false else
   loopM A.ncols (fun i ok =>
@@ -553,13 +553,13 @@ def isSymmetric (A : Store α) : Res Bool :=
       | .error e, _ => .error e
       | _, .error e => .error e) true) true
 
-/-- `mean(i,0) += A(i,j)` over `j`, then `mean(i,0) /= n` (`MatrixTools.h:894-901`) -/
+/-- `mean(i,0) += A(i,j)` over `j`, then `mean(i,0) /= n` (`MatrixTools.h:897-904`) -/
 def meanAt (A : Store α) (i _j : Nat) : Res α :=
   match dot A.ncols (fun j => A.get i j) with
   | .ok s => .ok (s / ofInt A.ncols)
   | .error e => .error e
 
-/-- `covar` (`MatrixTools.h:884-908`); every temporary is row-stored -/
+/-- `covar` (`MatrixTools.h:887-911`); every temporary is row-stored -/
 def covar (A O : Store α) : Res (Store α) :=
   let r := A.nrows; let n := A.ncols
   let O0 := O.resize r r
@@ -585,7 +585,7 @@ def covar (A O : Store α) : Res (Store α) :=
   | .error e => .error e
   | .ok mm => add O2 mm
 
-/-- the block loop nest shared by the three Kronecker products (`MatrixTools.h:929-943, 964-978,
+/-- the block loop nest shared by the three Kronecker products (`MatrixTools.h:932-946, 967-981,
 1002-1017`): `for ia, ja: aij = …; for ib, jb: O(ia*nrB+ib, ja*ncB+jb) = aij * b(ib,jb)` -/
 def kronLoop (O : Store α) (nrA ncA nrB ncB : Nat) (a : Nat → Nat → Res α) (b : Nat → Nat → Res α) :
     Res (Store α) :=
@@ -598,25 +598,25 @@ def kronLoop (O : Store α) (nrA ncA nrB ncB : Nat) (a : Nat → Nat → Res α)
         | .ok x => .ok (aij * x)
         | .error e => .error e) O) O
 
-/-- `kroneckerMult(A, B, O, check)` (`MatrixTools.h:919-943`) -/
+/-- `kroneckerMult(A, B, O, check)` (`MatrixTools.h:922-946`) -/
 def kron (A B O : Store α) (check : Bool) : Res (Store α) :=
   let O0 := if check then O.resize (A.nrows * B.nrows) (A.ncols * B.ncols) else O
   kronLoop O0 A.nrows A.ncols B.nrows B.ncols (fun ia ja => A.get ia ja) (fun ib jb => B.get ib jb)
 
-/-- `kroneckerMult(A, dim, v, O, check)` (`MatrixTools.h:956-978`) -/
+/-- `kroneckerMult(A, dim, v, O, check)` (`MatrixTools.h:959-981`) -/
 def kronD (A : Store α) (dim : Nat) (v : α) (O : Store α) (check : Bool) : Res (Store α) :=
   let O0 := if check then O.resize (A.nrows * dim) (A.ncols * dim) else O
   kronLoop O0 A.nrows A.ncols dim dim (fun ia ja => A.get ia ja)
     (fun ib jb => .ok (if ib = jb then v else zero))
 
-/-- `kroneckerMult(A, B, dA, dB, O, check)` (`MatrixTools.h:992-1017`) -/
+/-- `kroneckerMult(A, B, dA, dB, O, check)` (`MatrixTools.h:995-1020`) -/
 def kron2 (A B : Store α) (dA dB : α) (O : Store α) (check : Bool) : Res (Store α) :=
   let O0 := if check then O.resize (A.nrows * B.nrows) (A.ncols * B.ncols) else O
   kronLoop O0 A.nrows A.ncols B.nrows B.ncols
     (fun ia ja => if ia = ja then .ok dA else A.get ia ja)
     (fun ib jb => if ib = jb then .ok dB else B.get ib jb)
 
-/-- `hadamardMult(A, B, O)` (`MatrixTools.h:1027-1043`) -/
+/-- `hadamardMult(A, B, O)` (`MatrixTools.h:1030-1046`) -/
 def had (A B O : Store α) : Res (Store α) :=
   if A.nrows ≠ B.nrows then .error .dimension
   else if A.ncols ≠ B.ncols then .error .dimension
@@ -631,7 +631,7 @@ def quadAt (A iA B iB : Store α) (i j : Nat) : Res (α × α × α × α) :=
   | _, _, .error e, _ => .error e
   | _, _, _, .error e => .error e
 
-/-- real / imaginary part of entry `(i,j)` of the complex-pair Hadamard product (`MatrixTools.h:1070-1071`) -/
+/-- real / imaginary part of entry `(i,j)` of the complex-pair Hadamard product (`MatrixTools.h:1073-1074`) -/
 def hadReAt (A iA B iB : Store α) (i j : Nat) : Res α :=
   match quadAt A iA B iB i j with
   | .ok (a, ia, b, ib) => .ok (a * b - ia * ib)
@@ -649,7 +649,7 @@ def hadCBody (A iA B iB O iO : Store α) : Res (Store α × Store α) :=
     | .error e => .error e
     | .ok iO1 => .ok (O1, iO1)
 
-/-- `hadamardMult(A, iA, B, iB, O, iO)` (`MatrixTools.h:1056-1076`) -/
+/-- `hadamardMult(A, iA, B, iB, O, iO)` (`MatrixTools.h:1059-1079`) -/
 def hadC (A iA B iB O iO : Store α) : Res (Store α × Store α) :=
   if A.nrows ≠ B.nrows then .error .dimension
   else if A.ncols ≠ B.ncols then .error .dimension
@@ -657,7 +657,7 @@ def hadC (A iA B iB O iO : Store α) : Res (Store α × Store α) :=
   else if !sameDims iB B then .error .dimension
   else hadCBody A iA B iB O iO
 
-/-- `hadamardMult(A, vector, O, row)` (`MatrixTools.h:1087-1115`) -/
+/-- `hadamardMult(A, vector, O, row)` (`MatrixTools.h:1090-1118`) -/
 def hadV (A : Store α) (v : Array α) (O : Store α) (row : Bool) : Res (Store α) :=
   if row && A.nrows != v.size then .error .dimension
   else if !row && A.ncols != v.size then .error .dimension
@@ -667,7 +667,7 @@ def hadV (A : Store α) (v : Array α) (O : Store α) (row : Bool) : Res (Store 
     | .error e, _ => .error e
     | _, .error e => .error e
 
-/-- `directSum(A, B, O)` (`MatrixTools.h:1124-1163`): four block loops (`A`, zeros right of it, zeros
+/-- `directSum(A, B, O)` (`MatrixTools.h:1128-1167`): four block loops (`A`, zeros right of it, zeros
 below it, `B`; the last one ran `jb < nrB` before the repair) -/
 def dsum (A B O : Store α) : Res (Store α) :=
   let nrA := A.nrows; let ncA := A.ncols; let nrB := B.nrows; let ncB := B.ncols
@@ -682,13 +682,13 @@ def dsum (A B O : Store α) : Res (Store α) :=
   | .ok O3 => fillBlock O3 nrA ncA nrB ncB (fun i j => B.get i j)
 
 /-- one block of the n-ary direct sum: `O(rk + i, ck + j) = Ak(i, j)`, then `rk += rows`, `ck += cols`
-(`MatrixTools.h:1191-1203`) -/
+(`MatrixTools.h:1195-1207`) -/
 def dsumNStep (st : Store α × Nat × Nat) (Ak : Store α) : Res (Store α × Nat × Nat) :=
   match fillBlock st.1 st.2.1 st.2.2 Ak.nrows Ak.ncols (fun i j => Ak.get i j) with
   | .ok O2 => .ok (O2, st.2.1 + Ak.nrows, st.2.2 + Ak.ncols)
   | .error e => .error e
 
-/-- `directSum(vector<Matrix*>, O)` (`MatrixTools.h:1172-1205`) -/
+/-- `directSum(vector<Matrix*>, O)` (`MatrixTools.h:1176-1209`) -/
 def dsumN (vA : List (Store α)) (O : Store α) : Res (Store α) :=
   let nr := vA.foldl (fun s M => s + M.nrows) 0
   let nc := vA.foldl (fun s M => s + M.ncols) 0
@@ -699,11 +699,11 @@ def dsumN (vA : List (Store α)) (O : Store α) : Res (Store α) :=
     | .ok st => .ok st.1
     | .error e => .error e
 
-/-- `toVVdouble` (`MatrixTools.h:1214-1227`) -/
+/-- `toVVdouble` (`MatrixTools.h:1218-1231`) -/
 def toVV (M : Store α) : Res (Array (Array α)) :=
   collect M.nrows fun i => collect M.ncols fun j => M.get i j
 
-/-- `sumElements` (`MatrixTools.h:1235-1246`) -/
+/-- `sumElements` (`MatrixTools.h:1239-1250`) -/
 def sumElements (M : Store α) : Res α :=
   loopM M.nrows (fun i s => loopM M.ncols (fun j s => addR s (M.get i j)) s) zero
 
